@@ -420,7 +420,7 @@ struct BuildOutcome {
 }
 
 fn cargo_build(dir: &Path) -> BuildOutcome {
-    let target = Path::new(VERIF).join("target").join("gen");
+    let target = crate::report::out_dir().join("target").join("gen");
     let mut child = match Command::new("cargo")
         .args(["build", "--offline", "--bins", "--message-format=json", "--keep-going"])
         .current_dir(dir)
@@ -674,7 +674,7 @@ pub fn run(preset: Preset, thorough: bool, seed: u64, findings: &[Finding], only
     }
     rep.add("programs_generated", cases.len() as u64);
 
-    let work = Path::new(VERIF).join("work").join(format!("{}-{}", property.to_lowercase(), std::process::id()));
+    let work = crate::report::out_dir().join("work").join(format!("{}-{}", property.to_lowercase(), std::process::id()));
     let _ = std::fs::remove_dir_all(&work);
     let crate_dir = work.join("crate");
 
@@ -745,7 +745,7 @@ pub fn run(preset: Preset, thorough: bool, seed: u64, findings: &[Finding], only
     // run
     let mut results: BTreeMap<(usize, String, usize), (String, String)> = BTreeMap::new();
     if built {
-        let target = Path::new(VERIF).join("target").join("gen").join("debug");
+        let target = crate::report::out_dir().join("target").join("gen").join("debug");
         for b in 0..n_bins {
             let bin = target.join(format!("shard_{}", b));
             if !bin.exists() {
